@@ -407,7 +407,7 @@ theorem encP_sound (E : Env) (hs : SimpSym E.simp) (J : Interp) (hσ : SimpSound
 /-! ## the two directions for `PolCNF.convert` -/
 
 theorem convert_complete (E : Env) (u : Sym → Option Term) (I : Interp) (t : Term) (R : List Clause)
-    (hk : ∀ h ∈ t.subterms, wantsKey h = true → u (E.key h) = some h) (hf : ∀ s ∈ t.fv, u s = none)
+    (hk : ∀ h ∈ boolNodes t, wantsKey h = true → u (E.key h) = some h) (hf : ∀ s ∈ t.fv, u s = none)
     (hσ : SimpSound E.simp t I) (hR : convert E t = some R) (hI : tv I t = true) :
     holdsAll (ext u I) R := by
   unfold convert at hR
@@ -420,7 +420,7 @@ theorem convert_complete (E : Env) (u : Sym → Option Term) (I : Interp) (t : T
     rw [encP_lit, this.1, hI]
 
 theorem convert_sound (E : Env) (hs : SimpSym E.simp) (t : Term) (J : Interp) (R : List Clause)
-    (hfresh : ∀ h ∈ t.subterms, wantsKey h = true → E.key h ∉ t.fv) (hσ : SimpSound E.simp t J)
+    (hfresh : ∀ h ∈ boolNodes t, wantsKey h = true → E.key h ∉ t.fv) (hσ : SimpSound E.simp t J)
     (hR : convert E t = some R) (h : holdsAll J R) : tv J t = true := by
   unfold convert at hR
   split at hR
